@@ -15,10 +15,12 @@ DEFAULT_PROFILE = {
     'p_fault_beh': 250,      # a phase invocation misbehaves
     'p_opts': 200,           # a phase has non-default options
     'p_meas': 300,
+    'p_dim_meas': 500,       # share of validator-less measurements that are dimensioned
     'max_meas': 2,           # measurements per phase: 1..max_meas
     'p_diag': 250,
     'p_internal_diag': 300,  # share of eligible (non-failure) phase diagnosers that issue internal diagnoses
     'p_plug': 0,
+    'n_plug_classes': 3,     # 4 adds a second class with the same qualified name as the first
     'p_timeout': 0,          # phase with timeout and long / hanging body
     'p_ambiguous_dur': 0,    # durations inside [deadline, deadline+3) allowed
     'p_dur': 150,            # short sleeps in bodies
@@ -37,6 +39,7 @@ DEFAULT_PROFILE = {
     'late': 0,
     'p_profile': 0,
     'p_monitor': 0,
+    'p_share_function': 0,
     'p_dut_percent': 0,
     'p_monitor_hang': 0,
 }
@@ -153,6 +156,10 @@ class Gen(object):
       for j in range(1 + t.draw(self.p.get('max_meas', 2), 'nmeas')):
         meas.append({'name': 'm%d_%d' % (k, j),
                      'validator': t.weighted([(3, ['in_range', 0, 10]), (1, None), (1, ['equals', 5])], 'val')})
+        # a dimensioned measurement (no validator: validators of dimensioned measurements get the
+        # whole table); set through a coordinate or left unset like the others
+        if meas[-1]['validator'] is None and self.chance('p_dim_meas'):
+          meas[-1]['dim'] = True
     diags = []
     if self.chance('p_diag'):
       for j in range(1 + t.draw(2, 'ndiag')):
@@ -181,7 +188,7 @@ class Gen(object):
     plugs = {}
     if self.chance('p_plug'):
       for j in range(1 + t.draw(2, 'nplug')):
-        pi = t.draw(3, 'plug')
+        pi = t.draw(self.p.get('n_plug_classes', 3), 'plug')
         plugs['arg%d' % pi if t.chance(500, 'pname') else 'plug_%d_%d' % (k, pi)] = pi
       # one argument name per plug class at most once per phase
     # behaviours per invocation
@@ -204,6 +211,9 @@ class Gen(object):
     # inner phase without its plugs, and joining the monitor thread may take one poll interval)
     if not plugs and timeout is None and role == 'main' and self.chance('p_monitor'):
       spec['monitor'] = {'interval_ms': t.pick([500, 200, 1000], 'mon_interval')}
+      if t.chance(300, 'mon_block'):
+        # the monitor function blocks in a call that does not see the kill (a slow instrument read)
+        spec['monitor']['block_s'] = 3.0
     elif not plugs and timeout is not None and role == 'main' and self.chance('p_monitor_hang'):
       # a monitored phase whose body never returns in time and ignores the kill: its monitor
       # thread is abandoned with it and goes on sampling while later phases / retries run
@@ -337,7 +347,7 @@ class Gen(object):
         tds.append({'name': 'td%d' % j, 'outs': outs, 'always_fail': t.chance(100, 'af')})
     spec['test_diags'] = tds
     # plugs
-    plug_cfg = [{'ctor': 'ok', 'teardown': 'ok'} for _ in range(3)]
+    plug_cfg = [{'ctor': 'ok', 'teardown': 'ok'} for _ in range(max(3, p.get('n_plug_classes', 3)))]
     if p.get('plug_faults') and t.chance(p['plug_faults'], 'plugfault'):
       i = t.draw(3, 'which_plug')
       f = t.weighted([(3, ('ctor', 'raise')), (3, ('teardown', 'raise')), (2, ('teardown', 'hang')),
@@ -352,6 +362,8 @@ class Gen(object):
     for _ in range(ncb):
       cbs.append('raise' if self.chance('p_callbacks_raise') else 'ok')
     spec['callbacks'] = cbs
+    # all (unmonitored) phases built on one shared function object
+    spec['share_function'] = bool(p.get('p_share_function')) and t.chance(p['p_share_function'], 'share_function')
     # a DUT id with a per-cent sign in it (it ends up in log messages and file names)
     spec['dut_percent'] = bool(p.get('p_dut_percent')) and t.chance(p['p_dut_percent'], 'dut_percent')
     # Test.execute(profile_filename=...): every phase thread runs under cProfile
